@@ -47,6 +47,15 @@ theorem rstripPad_append_pad (s p : Str) (hp : ∀ c ∈ p, isPad c = true) :
   unfold rstripPad
   rw [List.reverse_append, dropWhile_append_all isPad _ _ (fun c hc => hp c (by simpa using hc))]
 
+/-- a 200 answer is decoded the same whatever padding (spaces, tabs, CR, LF, NUL) follows it -/
+theorem decode_padding_irrelevant (O : Oracles) (X : XmlOracle) (a : ActionDecl) (text pad : Str)
+    (hp : ∀ c ∈ pad, isPad c = true) :
+    decode O X a 200 (some (text ++ pad)) = decode O X a 200 (some text) := by
+  have h200 : ((200 : Int) != 200) = false := by decide
+  unfold decode
+  simp only [h200, rstripPad_append_pad text pad hp]
+  rfl
+
 /-- 200 and not XML ⇒ the XML-parse error; non-200 and not XML ⇒ the response error with status -/
 theorem decode_garbage (O : Oracles) (X : XmlOracle) (a : ActionDecl) (status : Int) (text : Str)
     (hx : X (if status == 200 then rstripPad text else stripPad text) = some none) :
